@@ -282,7 +282,7 @@ void harness(void)
   __CPROVER_assume(!s.recursive || (s.depth >= 0 && s.depth < 1000 && ((s.owner < 0) == (s.depth == 0))));
   for (int k = 0; k < QSZ; k++) {
     __CPROVER_assume(0 <= s.issuer[k] && s.issuer[k] < NACT && 1 <= s.depth_[k] && s.depth_[k] < 1000 &&
-                     s.simcalls[k] <= 1);
+                     s.simcalls[k] == 0); /* nobody waits on these acquisitions yet */
     if (s.h <= k && k < s.h + s.n) { /* queued: not granted, (recursive) not the owner, issuers distinct */
       __CPROVER_assume(!s.granted[k] && (!s.recursive || s.issuer[k] != s.owner));
       for (int j = 0; j < k; j++)
